@@ -192,8 +192,17 @@ def evaluate(case, stt):
             stt.count("recompile_rejected_(C02)")
     # the SsbScript decompiler on the same input
     infos, rops, coros = gen_ssb.build(c)
-    out, exc = call_guard(lambda: decompile_ssbs(infos, rops, coros))
+    # the optional header text of the SsbScript decompiler (the fallback passes its warning block): drawn from the
+    # input, with and without a final line break
+    import hashlib
+
+    pick = hashlib.sha1(desc.encode()).digest()[0] % 6
+    prefix = [None, "", "// decompiled by vf", "// a\n// b", "// a\n", "//?: key: value\n// second line\n\n"][pick]
+    stt.count("ssbs_prefix:" + ("none" if prefix is None else "empty" if prefix == "" else "unterminated" if not prefix.endswith("\n") else "terminated"))
+    out, exc = call_guard(lambda: decompile_ssbs(infos, rops, coros, prefix))
     if exc is None:
+        if prefix and not out[0].startswith(prefix):
+            fails.append(Failure("ssbs:prefix_lost", f"the text does not start with the prefix {prefix!r}\n{out[0][:200]}"))
         check_map(c, out[0], out[1], "ssbs", fails, stt, desc)
         n_ops = sum(len(r["ops"]) for r in c["routines"])
         if len(list(out[1])) != n_ops:
